@@ -331,6 +331,37 @@ func ReachK(from Point, target func(ssa.Instruction, Known) bool, cut *Cut, seed
 			corr[base] = true
 		}
 	}
+	// nil tests: `x == nil` / `x != nil` per tested value. An error (or pointer) variable that is
+	// assigned on some paths and tested afterwards is a phi; the outcome of the test on the phi is
+	// known on an edge whose incoming value was itself tested for nil earlier on the path
+	// (`if err == nil { err = next() }; if err != nil { ... }`).
+	nilTests := map[ssa.Value][]*ssa.BinOp{}
+	for _, b := range from.B.Parent().Blocks {
+		for _, in := range b.Instrs {
+			bo, ok := in.(*ssa.BinOp)
+			if !ok || (bo.Op != token.EQL && bo.Op != token.NEQ) {
+				continue
+			}
+			if IsNilConst(bo.Y) {
+				nilTests[bo.X] = append(nilTests[bo.X], bo)
+			} else if IsNilConst(bo.X) {
+				nilTests[bo.Y] = append(nilTests[bo.Y], bo)
+			}
+		}
+	}
+	for v := range nilTests {
+		phi, ok := v.(*ssa.Phi)
+		if !ok {
+			continue
+		}
+		for _, e := range phi.Edges {
+			for _, bo := range nilTests[e] {
+				if onceEvaluated(bo) {
+					corr[bo] = true
+				}
+			}
+		}
+	}
 	sig := func(b *ssa.BasicBlock, known Known, al map[ssa.Value]alias) string {
 		if len(known) == 0 && len(al) == 0 {
 			return fmt.Sprint(b.Index)
@@ -503,6 +534,38 @@ func ReachK(from Point, target func(ssa.Instruction, Known) bool, cut *Cut, seed
 						known[phi] = u.val
 					} else if u.alias != nil && u.alias.base != ssa.Value(phi) {
 						al[phi] = *u.alias
+					}
+				}
+			}
+			// nil tests of (non-boolean) phis of the successor
+			if pi >= 0 && len(nilTests) > 0 {
+				for _, in := range s.Instrs {
+					phi, ok := in.(*ssa.Phi)
+					if !ok {
+						break
+					}
+					tests := nilTests[phi]
+					if len(tests) == 0 {
+						continue
+					}
+					e := phi.Edges[pi]
+					determined, isNil := false, false
+					if IsNilConst(e) {
+						determined, isNil = true, true
+					} else {
+						for _, bo := range nilTests[e] {
+							if v, ok := oldKnown[bo]; ok {
+								determined, isNil = true, v == (bo.Op == token.EQL)
+							}
+						}
+					}
+					cp()
+					for _, t := range tests {
+						if determined {
+							known[t] = isNil == (t.Op == token.EQL)
+						} else {
+							delete(known, t)
+						}
 					}
 				}
 			}
@@ -1263,6 +1326,13 @@ func CmpConst(bo *ssa.BinOp) (x ssa.Value, op token.Token, c int64, ok bool) {
 		return nil, 0, 0, false
 	}
 	if k, isC := ConstInt(bo.Y); isC {
+		// integers: x < 1 is x <= 0, x >= 1 is x > 0 (one normal form for "compared with zero")
+		if k == 1 && bo.Op == token.LSS && isIntegerValue(bo.X) {
+			return bo.X, token.LEQ, 0, true
+		}
+		if k == 1 && bo.Op == token.GEQ && isIntegerValue(bo.X) {
+			return bo.X, token.GTR, 0, true
+		}
 		return bo.X, bo.Op, k, true
 	}
 	if k, isC := ConstInt(bo.X); isC {
@@ -1277,7 +1347,18 @@ func CmpConst(bo *ssa.BinOp) (x ssa.Value, op token.Token, c int64, ok bool) {
 		case token.GEQ:
 			op = token.LEQ
 		}
+		if k == 1 && op == token.LSS && isIntegerValue(bo.Y) {
+			return bo.Y, token.LEQ, 0, true
+		}
+		if k == 1 && op == token.GEQ && isIntegerValue(bo.Y) {
+			return bo.Y, token.GTR, 0, true
+		}
 		return bo.Y, op, k, true
 	}
 	return nil, 0, 0, false
+}
+
+func isIntegerValue(v ssa.Value) bool {
+	b, ok := v.Type().Underlying().(*types.Basic)
+	return ok && b.Info()&types.IsInteger != 0
 }
